@@ -21,6 +21,7 @@ C21  A generated program of multi-statement lines, nested GOSUBs and a fixed err
 
 import os
 import re
+import logging
 import errno as _errno
 from fractions import Fraction
 
@@ -601,6 +602,11 @@ def gen20(rng, tier):
                   'fns': [f for f in FN_NAMES if f != fn and rng.random() < 0.5], 'mism': 0.05,
                   'block': faulty and rng.random() < 0.5, 'faults': rng.random() < 0.4, 'gc': rng.random() < 0.5}
             body = _gen_expr(rng, _vtype(fn), cx, rng.randint(1, 3))
+            if cx['block'] and rng.random() < 0.7:
+                # make sure the evaluation blocks (or polls) somewhere
+                w_ = ['in1'] if rng.random() < 0.75 else ['inkey']
+                w_ = w_ if _vtype(fn) == 's' else ['len', w_]
+                body = ['+', body, w_] if rng.random() < 0.5 else ['+', w_, body]
             rr = rng.random()
             if rr < 0.08:
                 # direct self-recursion
@@ -634,7 +640,7 @@ def gen20(rng, tier):
             if faulty:
                 acts = []
                 for _ in range(rng.randint(0, 3)):
-                    acts.append(rng.choice(['k:a', 'k:b', 'k:7', 'k:Q', 'trap', 'break', 'quit', 'k:m']))
+                    acts.append(rng.choice(['k:a', 'k:b', 'k:7', 'trap', 'break', 'break', 'quit', 'quit', 'k:m']))
                 op['acts'] = acts
                 if rng.random() < 0.15:
                     op['pevt'] = {'n': rng.randint(1, 4), 'act': rng.choice(['break', 'quit', 'trap'])}
@@ -817,7 +823,21 @@ def run20(case):
             run.res['stats']['stalled'] += t.stalled
             d.close()
         judge20(run, cfg, ops, call_lines, sinks.value(), hook)
-    return execute(case, body)
+
+    def guarded(run):
+        try:
+            body(run)
+        except EngineCrash as e:
+            # same innermost frame, different defects: say where the detached string was met
+            if e.signature.endswith('strings.py:_retrieve'):
+                where = 'in-collector' if 'collect_garbage' in e.tb else 'in-dereference'
+                run.res['status'] = 'crash'
+                run.violate('C20', 'crash:%s:%s' % (e.signature, where),
+                            '%s: %s (during %r)\n%s\nprogram:\n%s' % (e.exc_type, e.exc_msg, e.where, e.tb[-1500:],
+                                                                       _listing(cfg, ops)))
+                return
+            raise
+    return execute(case, guarded)
 
 
 def judge20(run, cfg, ops, call_lines, out, hook):
@@ -925,24 +945,38 @@ def judge20(run, cfg, ops, call_lines, out, hook):
             run.violate('C20', 'trace-lost:around-call',
                         'dump or "#A|%d|" marker missing around call %d (%s)\n%s' % (i, i, expr_text(op['e']), _tail(out)))
             break
-        # ---- model
+        # ---- model. An evaluation interrupted by Break (then CONT) or QUIT (then resume) may be
+        # abandoned or - as this engine does for a statement interrupted inside an expression -
+        # re-executed from its start, consuming the remaining user actions. Both are accepted.
         m.begin_stmt(op.get('acts'))
         target = _norm(op['var']) if op['ctx'] == 'let' else None
-        outcome = None
-        try:
-            val = m.ev(op['e'])
-            if target:
-                val = conv_to(val, _sig(target))
-            outcome = ('ok', val)
-        except BErr as e:
-            outcome = ('err', e.code)
-        except Interrupted as e:
-            outcome = (e.kind,)
+        attempts = []
+        while len(attempts) < 10:
+            try:
+                val = m.ev(op['e'])
+                if target:
+                    val = conv_to(val, _sig(target))
+                attempts.append(('ok', val))
+                break
+            except BErr as e:
+                attempts.append(('err', e.code))
+                break
+            except Interrupted as e:
+                attempts.append((e.kind,))
+        final = attempts[-1]
+        n_int = sum(1 for a in attempts if a[0] in ('break', 'quit'))
         pe = op.get('pevt')
         relaxed = bool(pe and pe['act'] in ('break', 'quit'))
         shadow = _shadow_class(cfg, op, m)
+        unknown = m.soft > 0 or (final[0] == 'ok' and final[1][1] is UNK)
         # ---- what the engine did
-        results = [e for e in mid if e[0] == '#' and e[1] == 'R']
+        results = []
+        for e in mid:
+            if e[0] == '#' and e[1] == 'R' and e[3]:
+                flds = list(e[2])
+                while flds and flds[0] == '#R':
+                    flds = flds[1:]          # "#R|" printed again by a re-executed PRINT
+                results.append(flds)
         errs = [e for e in mid if (e[0] == '#' and e[1] == 'E' and e[3]) or e[0] == 'stop']
         breaks = [e for e in mid if e[0] == 'break']
         tdumps = []
@@ -957,24 +991,22 @@ def judge20(run, cfg, ops, call_lines, out, hook):
                 tdumps.append(dd)
         got_err = None
         if errs:
-            e = errs[0]
-            got_err = (int(e[2][0]), int(e[2][1])) if e[0] == '#' else (e[1], e[2])
-        if outcome[0] == 'ok':
-            ok_kind = 'ok'
-        else:
-            ok_kind = outcome[0]
-        run.state('call', op['ctx'], ok_kind if ok_kind != 'err' else 'err%d' % outcome[1],
+            e = errs[-1]
+            try:
+                got_err = (int(e[2][0]), int(e[2][1])) if e[0] == '#' else (e[1], e[2])
+            except (ValueError, IndexError):
+                got_err = (-2, -2)
+        ok_kind = 'interrupt' if (n_int or relaxed) else final[0]
+        run.state('call', op['ctx'], final[0] if final[0] != 'err' else 'err%d' % final[1], n_int,
                   len(cfg['fns'].get(op['e'][1], [])) if op['e'][0] == 'fn' else -1, shadow, gc_on,
-                  bool(cfg.get('onerror')), pe['act'] if pe else (op.get('acts') or ['-'])[0][:1])
+                  bool(cfg.get('onerror')), pe['act'] if pe else '-')
         if m.recursed:
             run.probe('recursion-reached')
         if m.waits:
             run.probe('model-blocking-wait', m.waits)
-        if outcome[0] in ('break', 'quit'):
-            run.probe('interrupted-' + outcome[0])
+        for a in attempts[:-1]:
+            run.probe('interrupted-' + a[0])
         # ---- oracle A: the property itself - dump after == dump before (except the target)
-        expect_target = None
-        assigned = False
         for name in before:
             if name == target:
                 continue
@@ -982,7 +1014,7 @@ def judge20(run, cfg, ops, call_lines, out, hook):
                 run.violate('C20', 'caller-var-changed:%s:%s:after-%s' % (
                     _var_class(cfg, op, name), shadow, ok_kind),
                     'call %d at line %d: %s\n%s was %r before the call and %r after it (model outcome %r; forced gc k=%s; '
-                    'delivered %r)\nprogram:\n%s' % (i, line, _stmt_text(op), name, before[name], after[name], outcome,
+                    'delivered %r)\nprogram:\n%s' % (i, line, _stmt_text(op), name, before[name], after[name], attempts,
                                                     cfg.get('gc_k'), [a for a in hook.delivered if a[0] == i],
                                                     _listing(cfg, ops)))
         # ---- oracle B: dump before == model (then resynchronise so one defect is reported once)
@@ -994,67 +1026,56 @@ def judge20(run, cfg, ops, call_lines, out, hook):
             if mt is None or mt != before[name]:
                 resync(name, before[name])
         # ---- oracle C: outcome
-        softmsg = m.soft > 0
-        interrupted_seen = bool(breaks) or any(a[0] == i and a[1] == 'quit' for a in hook.delivered)
-        if relaxed:
-            # Break/QUIT at the n-th poll in this line: it may land inside the evaluation or at the
-            # boundary after it. Either nothing or the uninterrupted result is acceptable.
-            run.probe('poll-keyed-interrupt')
-            if target:
-                resync(target, after[target])
-                if after[target] != before[target] and outcome[0] == 'ok' and outcome[1][1] is not UNK:
-                    m.g[target] = outcome[1][1]
-                    mt = model_text(target)
-                    if mt is not None and mt != after[target]:
-                        run.violate('C20', 'result-mismatch:let:interrupted',
-                                    'call %d %s: %s became %r, model %r or unchanged %r' % (
-                                        i, _stmt_text(op), target, after[target], mt, before[target]))
-                        resync(target, after[target])
-            elif results and results[0][3] and outcome[0] == 'ok' and outcome[1][1] is not UNK:
-                exp = _result_text(outcome[1])
-                if exp is not None and len(exp) < 60 and results[0][2] != [exp]:
-                    run.violate('C20', 'result-mismatch:print:interrupted',
-                                'call %d %s printed %r, model %r' % (i, _stmt_text(op), results[0][2], exp))
-        elif outcome[0] == 'ok':
-            val = outcome[1]
+        res_class = _result_class(cfg, op, m)
+        nothing = not results and got_err is None
+        if any(a[0] == 'break' for a in attempts) and not breaks:
+            run.violate('C20', 'break-not-reported', 'call %d %s: no Break message; events %r; delivered %r' % (
+                i, _stmt_text(op), mid, hook.delivered))
+        if breaks and not relaxed and not any(a[0] == 'break' for a in attempts):
+            run.violate('C20', 'unexpected-break', 'call %d %s: Break reported, model outcome %r' % (i, _stmt_text(op), attempts))
+        if (relaxed or n_int) and nothing and (not target or after[target] == before[target]):
+            # interrupted and abandoned (or an assignment of the value the target already had)
+            run.probe('interrupted-statement-abandoned')
+        elif final[0] == 'ok':
+            if relaxed or n_int:
+                run.probe('interrupted-statement-completed')
+            val = final[1]
             if got_err is not None:
                 if pressure and got_err[0] in (7, 14):
                     run.probe('pressure-error')
-                    if target:
-                        resync(target, after[target])
+                elif unknown:
+                    run.probe('unknown-outcome')
                 else:
                     run.violate('C20', 'unexpected-error:%d' % got_err[0],
                                 'call %d at line %d: %s\nreported error %r, model value %r\nprogram:\n%s' % (
                                     i, line, _stmt_text(op), got_err, val, _listing(cfg, ops)))
-                    if target:
-                        resync(target, after[target])
-            elif breaks:
-                run.violate('C20', 'unexpected-break', 'call %d: Break reported, model outcome %r' % (i, outcome))
+                if target:
+                    resync(target, after[target])
             else:
-                exp = _result_text(val)
+                exp = None if unknown else _result_text(val)
                 if target:
                     if exp is None:
                         resync(target, after[target])
                     else:
                         m.g[target] = val[1]
                         if after[target] != exp:
-                            run.violate('C20', 'result-mismatch:let',
-                                        'call %d at line %d: %s\n%s reads %r after the call, model %r\nprogram:\n%s' % (
-                                            i, line, _stmt_text(op), target, after[target], exp, _listing(cfg, ops)))
+                            run.violate('C20', 'result-mismatch:%s' % res_class,
+                                        'call %d at line %d: %s\n%s reads %r after the call, model %r (attempts %r)\nprogram:\n%s' % (
+                                            i, line, _stmt_text(op), target, after[target], exp, attempts, _listing(cfg, ops)))
                             resync(target, after[target])
-                else:
-                    if not results or not results[0][3]:
+                elif not results:
+                    if not unknown:
                         run.violate('C20', 'result-missing', 'call %d at line %d: %s\nno complete result line; events %r' % (
                             i, line, _stmt_text(op), mid))
-                    elif exp is not None and len(exp) < 60 and results[0][2] != [exp]:
-                        run.violate('C20', 'result-mismatch:print',
-                                    'call %d at line %d: %s\nprinted %r, model %r (parameters take the converted '
-                                    'argument values)\nprogram:\n%s' % (i, line, _stmt_text(op), results[0][2], exp,
-                                                                       _listing(cfg, ops)))
-        elif outcome[0] == 'err':
-            code = outcome[1]
+                elif exp is not None and len(exp) < 60 and results[-1] != [exp]:
+                    run.violate('C20', 'result-mismatch:%s' % res_class,
+                                'call %d at line %d: %s\nprinted %r, model %r (parameters take the converted '
+                                'argument values; attempts %r)\nprogram:\n%s' % (i, line, _stmt_text(op), results[-1], exp,
+                                                                                 attempts, _listing(cfg, ops)))
+        elif final[0] == 'err':
+            code = final[1]
             if target and after[target] != before[target]:
-                run.violate('C20', 'caller-var-changed:target-of-failed-call:%s:after-err' % shadow,
+                run.violate('C20', 'caller-var-changed:target-of-failed-call:%s' % shadow,
                             'call %d %s failed (model error %d) but %s changed from %r to %r' % (
                                 i, _stmt_text(op), code, target, before[target], after[target]))
                 resync(target, after[target])
@@ -1063,11 +1084,11 @@ def judge20(run, cfg, ops, call_lines, out, hook):
                     run.violate('C20', 'recursion-no-out-of-memory',
                                 'call %d at line %d: %s\na function calling itself must raise Out of memory; events %r\n'
                                 'program:\n%s' % (i, line, _stmt_text(op), mid, _listing(cfg, ops)))
-                else:
+                elif not m.soft:
                     run.violate('C20', 'error-missing:%d' % code,
                                 'call %d at line %d: %s\nmodel error %d, engine reported none; events %r\nprogram:\n%s' % (
                                     i, line, _stmt_text(op), code, mid, _listing(cfg, ops)))
-            elif got_err[0] != code and not (pressure and got_err[0] in (7, 14)):
+            elif got_err[0] != code and not (pressure and got_err[0] in (7, 14)) and not m.soft:
                 run.violate('C20', 'error-mismatch:model-%d:engine-%d' % (code, got_err[0]),
                             'call %d at line %d: %s\nmodel error %d, engine %r\nprogram:\n%s' % (
                                 i, line, _stmt_text(op), code, got_err, _listing(cfg, ops)))
@@ -1075,20 +1096,9 @@ def judge20(run, cfg, ops, call_lines, out, hook):
                 run.violate('C20', 'error-line-mismatch', 'call %d: error %d reported for line %d, call is in line %d' % (
                     i, got_err[0], got_err[1], line))
         else:
-            # break / quit consumed by a blocking wait inside the evaluation
-            if target and after[target] != before[target]:
-                run.violate('C20', 'caller-var-changed:target-of-interrupted-call:%s:after-%s' % (shadow, outcome[0]),
-                            'call %d %s was interrupted (%s) but %s changed from %r to %r' % (
-                                i, _stmt_text(op), outcome[0], target, before[target], after[target]))
+            # more interruptions than the model follows: only the dumps are judged
+            if target:
                 resync(target, after[target])
-            if results and results[0][3]:
-                run.violate('C20', 'result-after-interrupt:%s' % outcome[0],
-                            'call %d %s: model says the evaluation was interrupted by %s, but a result was printed: %r\n'
-                            'delivered %r\nprogram:\n%s\n%s' % (
-                                i, _stmt_text(op), outcome[0], results[0][2], hook.delivered, _listing(cfg, ops), _tail(out)))
-            if outcome[0] == 'break' and not breaks:
-                run.violate('C20', 'break-not-reported', 'call %d %s: no Break message; events %r; delivered %r' % (
-                    i, _stmt_text(op), mid, hook.delivered))
         # ---- trap handler dumps: the handler runs after the statement, so it sees the after-state
         for dd in tdumps:
             run.probe('trap-handler-dump')
@@ -1144,6 +1154,21 @@ def _called_fns(cfg, node, m, seen=None):
     return seen
 
 
+def _call_nodes(node):
+    if node[0] == 'fn':
+        yield node
+    for sub in node[1:]:
+        if isinstance(sub, list):
+            if sub and isinstance(sub[0], str) and sub[0] in _KINDS:
+                for c in _call_nodes(sub):
+                    yield c
+            else:
+                for x in sub:
+                    if isinstance(x, list):
+                        for c in _call_nodes(x):
+                            yield c
+
+
 def _shadow_class(cfg, op, m):
     """Does any function reachable from the call have a string / numeric parameter?"""
     fns = _called_fns(cfg, op['e'], m)
@@ -1155,6 +1180,21 @@ def _shadow_class(cfg, op, m):
     if ps:
         return 'num-param'
     return 'no-param'
+
+
+def _result_class(cfg, op, m):
+    """Shape of the outermost called function's body, for violation signatures."""
+    fns = sorted(_called_fns(cfg, op['e'], m))
+    for node in [op['e']] + [m.defs[f] for f in fns if f in m.defs]:
+        for call in _call_nodes(node):
+            ps = set(_norm(p) for p in cfg['fns'].get(call[1], []))
+            if any(a[0] == 'v' and _norm(a[1]) in ps for a in call[2]):
+                return 'argument-is-bare-variable-named-like-a-parameter'
+    for fn in fns:
+        body = m.defs.get(fn)
+        if body and body[0] in ('v', 'e') and _sig(body[1]) == _sig(fn):
+            return 'body-is-bare-variable-of-result-type'
+    return op['ctx']
 
 
 def _var_class(cfg, op, name):
@@ -1233,6 +1273,8 @@ def gen(rng, tier, prop):
 
 def run(case):
     simfs.install_fs_seams()
+    # the engine logs every translated host error; keep the workers' stderr quiet
+    logging.disable(logging.CRITICAL)
     if case['prop'] == 'C20':
         return run20(case)
     return run21(case)
@@ -1244,13 +1286,820 @@ def simplify(cfg, ops):
     return simplify21(cfg, ops)
 
 
+
+###############################################################################
+###############################################################################
+# C21
+
+ERRNO_CODE = {   # the documented table devices/disk.py:OS_ERROR
+    'ENOENT': 53, 'EISDIR': 53, 'ENOTDIR': 53,
+    'EAGAIN': 70, 'EACCES': 70, 'EBUSY': 70, 'EROFS': 70, 'EPERM': 70,
+    'ENOSPC': 61, 'ENXIO': 71, 'ENODEV': 71, 'EIO': 57, 'EEXIST': 75, 'ENOTEMPTY': 75,
+}
+BAD = {   # real runtime faults: kind -> (text, code)
+    'ovf': ('Z%=40000', 6), 'asc': ('Z%=ASC("")', 5), 'tm': ('Z$=1', 13), 'sub': ('Z%=Q%(99)', 9),
+    'undef': ('GOTO 64000', 8), 'fn': ('Z=FNQ(1)', 18), 'data': ('READ Z', 4), 'nxt': ('NEXT', 1),
+    'str': ('Z$=STRING$(200,"A")+STRING$(100,"B")', 15), 'div': ('Z!=1/0', 11), 'wend': ('WEND', 30),
+    'bfn': ('PRINT #3,"X"', 52), 'fnf': ('OPEN "NOSUCH.DAT" FOR INPUT AS #3', 53), 'ifc': ('Z$=MID$("A",0)', 5),
+    'cint': ('Z%=CINT(1E9)', 6),
+}
+ERR_CODES = [1, 3, 5, 6, 7, 9, 11, 13, 21, 53, 57, 61, 70, 77, 200, 255, 0]
+MAIN0 = 100
+FIN21 = 4000
+SUB0 = 5000
+H0 = 9000
+REC_OLD = 'REC1DATA'
+REC_NEW = 'NEWDATA!'
+
+
+def main_line(k):
+    return MAIN0 + 10 * k
+
+
+def sub_line(k):
+    return SUB0 + 10 * k
+
+
+def expand(stmts):
+    """op-level statements -> list of (BASIC text, semantics tuple), one per BASIC statement."""
+    out = []
+    for st in stmts:
+        k = st[0]
+        if k == 'm':
+            out.append(('PRINT "#M|%d|"' % st[1], ('mark', st[1])))
+        elif k == 'err':
+            out.append(('ERROR %d' % st[1], ('err', st[1])))
+        elif k == 'bad':
+            out.append((BAD[st[1]][0], ('bad', st[1])))
+        elif k == 'seti':
+            out.append(('I%%=%d' % st[1], ('seti', st[1])))
+        elif k == 'fix':
+            out.append(('Z%=Q%(I%)', ('fix',)))
+        elif k == 'sel':
+            out.append(('R%%=%d' % st[1], ('sel', st[1])))
+        elif k == 'selh':
+            out.append(('H%%=%d' % st[1], ('selh', st[1])))
+        elif k == 'gosub':
+            out.append(('GOSUB %d' % sub_line(st[1]), ('gosub', st[1])))
+        elif k == 'ret':
+            out.append(('RETURN', ('ret',)))
+        elif k == 'onerr':
+            out.append(('ON ERROR GOTO %d' % (H0 if st[1] else 0), ('onerr', st[1])))
+        elif k == 'resume':
+            f = st[1]
+            txt = 'RESUME' if f == '' else ('RESUME NEXT' if f == 'NEXT' else 'RESUME %d' % main_line(f))
+            out.append((txt, ('resume', f)))
+        elif k == 'end':
+            out.append(('END', ('end',)))
+        elif k == 'if':
+            inner = expand([st[1]])
+            if len(inner) == 1:
+                out.append(('IF 1 THEN ' + inner[0][0], inner[0][1]))
+            else:
+                out.extend(inner)
+        elif k == 'dev':
+            kind, f = st[1], st[2]
+            if kind == 'openi':
+                out.append(('OPEN "%s.DAT" FOR INPUT AS #1' % f, ('open', f, 'I', 1)))
+                out.append(('CLOSE #1', ('close', 1)))
+            elif kind == 'openo':
+                out.append(('OPEN "%s.DAT" FOR OUTPUT AS #1' % f, ('open', f, 'O', 1)))
+                out.append(('CLOSE #1', ('close', 1)))
+            elif kind == 'get':
+                out.append(('OPEN "%s.DAT" AS #2 LEN=8' % f, ('open', f, 'R', 2)))
+                out.append(('FIELD #2,8 AS G$', ('field', 2)))
+                out.append(('GET #2,1', ('get', 2)))
+                out.append(('PRINT "#G|";G$;"|"', ('printg',)))
+                out.append(('CLOSE #2', ('close', 2)))
+            elif kind == 'put':
+                out.append(('OPEN "%s.DAT" AS #2 LEN=8' % f, ('open', f, 'R', 2)))
+                out.append(('FIELD #2,8 AS G$', ('field', 2)))
+                out.append(('LSET G$="%s"' % REC_NEW, ('lset',)))
+                out.append(('PUT #2,1', ('put', 2)))
+                out.append(('CLOSE #2', ('close', 2)))
+            elif kind == 'kill':
+                out.append(('KILL "%s.DAT"' % f, ('kill', f)))
+            elif kind == 'name':
+                out.append(('NAME "%s.DAT" AS "%s.NEW"' % (f, f), ('name', f)))
+            elif kind == 'files':
+                out.append(('FILES "%s\\*.*"' % f, ('files', f)))
+            elif kind == 'mkdir':
+                out.append(('MKDIR "%s"' % f, ('mkdir', f)))
+            else:
+                raise ValueError(st)
+        else:
+            raise ValueError(st)
+    return out
+
+
+def handler_lines(cfg):
+    lim = cfg['lim']
+    land = cfg['landings']
+    lines = [
+        '%d PRINT:PRINT "#E|";ERR;"|";ERL;"|":C%%=C%%+1:I%%=1' % H0,
+        '%d IF C%%>%d THEN PRINT "#LOOP|":END' % (H0 + 10, lim),
+        '%d IF H%%=1 THEN H%%=0:ERROR 77' % (H0 + 20),
+        '%d IF H%%=2 THEN H%%=0:Z%%=Q%%(99)' % (H0 + 30),
+        '%d IF R%%=1 THEN RESUME' % (H0 + 40),
+        '%d IF R%%=2 THEN ON ERROR GOTO 0' % (H0 + 50),
+        '%d IF R%%=3 THEN RESUME 0' % (H0 + 55),
+    ]
+    if land:
+        lines.append('%d IF R%%>=10 THEN ON R%%-9 GOTO %s' % (H0 + 60, ','.join(str(H0 + 200 + 10 * j) for j in range(len(land)))))
+    lines.append('%d RESUME NEXT' % (H0 + 70))
+    for j, k in enumerate(land):
+        lines.append('%d RESUME %d' % (H0 + 200 + 10 * j, main_line(k)))
+    return lines
+
+
+def program21(cfg, ops):
+    """-> (sorted [(lineno, text)], {lineno: [atoms]} for modelled lines)."""
+    lines = {}
+    atoms = {}
+    for op in ops:
+        if op['op'] == 'line':
+            n = main_line(op['id'])
+            ex = expand(op['stmts'])
+        elif op['op'] == 'sub':
+            n = sub_line(op['id'])
+            ex = expand(op['stmts'] + [['ret']])
+        else:
+            continue
+        if not ex:
+            continue
+        lines[n] = '%d %s' % (n, ':'.join(t for t, _ in ex))
+        atoms[n] = [sem for _, sem in ex]
+    lines[FIN21] = '%d PRINT "#FIN|":END' % FIN21
+    atoms[FIN21] = [('fin',), ('end',)]
+    for l in handler_lines(cfg):
+        lines[int(l.split()[0])] = l
+    return sorted(lines.items()), atoms
+
+
+class Halt(Exception):
+    pass
+
+
+class Unspec(Exception):
+    pass
+
+
+class Model21(object):
+    """Reference model of the statement pointer, the error trap state and the fault plan."""
+
+    def __init__(self, cfg, ops, run=None):
+        self.cfg = cfg
+        self.run = run
+        _, self.atoms = program21(cfg, ops)
+        self.linenos = sorted(self.atoms)
+        self.ev = []
+        self.steps = 0
+        self.on_error = False
+        self.in_handler = False
+        self.resume_ptr = None
+        self.stale_resume = False
+        self.err = (0, 0)
+        self.gosub = []
+        self.I = 0
+        self.R = 0
+        self.H = 0
+        self.C = 0
+        self.exists = {}
+        self.content = {}
+        self.open = {}
+        self.buf = {}
+        self.fielded = None
+        self.faults = {}
+        self.direct = None
+        self.direct_gen = 0
+        for op in ops:
+            if op['op'] == 'fault':
+                self.faults.setdefault((op['file'], op['kind']), [0, ERRNO_CODE[op['errno']]])
+                self.faults[(op['file'], op['kind'])][0] += op['r']
+                self.faults[(op['file'], op['kind'])][1] = ERRNO_CODE[op['errno']]
+        for f, kind in site_files(ops):
+            if kind in ('openi', 'get', 'put', 'kill', 'name'):
+                self.exists[f + '.DAT'] = True
+                self.content[f + '.DAT'] = REC_OLD
+            elif kind == 'files':
+                self.exists[f] = True
+
+    # -- pointer helpers ---------------------------------------------------
+
+    def next_ptr(self, p):
+        if p[0] == 'D':
+            return ('D', p[1], p[2] + 1)
+        n, i = p[1], p[2]
+        if i + 1 < len(self.atoms[n]):
+            return ('P', n, i + 1)
+        later = [x for x in self.linenos if x > n]
+        if later:
+            return ('P', later[0], 0)
+        return None
+
+    def line_ptr(self, n):
+        return ('P', n, 0) if n in self.atoms else None
+
+    def erl(self, p):
+        return 65535 if p[0] == 'D' else p[1]
+
+    # -- faults --------------------------------------------------------------
+
+    def fault(self, f, kind):
+        fl = self.faults.get((f, kind))
+        if fl and fl[0] > 0:
+            fl[0] -= 1
+            if self.run is not None:
+                self.run.probe('model-device-fault')
+            return fl[1]
+        return None
+
+    def remaining(self):
+        return sum(v[0] for v in self.faults.values())
+
+    # -- execution -----------------------------------------------------------
+
+    def run_from(self, p):
+        """Execute until the program/direct line returns to the prompt."""
+        try:
+            while p is not None:
+                if p[0] == 'D':
+                    if p[2] >= len(self.direct):
+                        return
+                    sem = self.direct[p[2]]
+                else:
+                    sem = self.atoms[p[1]][p[2]]
+                self.steps += 1
+                if self.steps > 900:
+                    raise Unspec()
+                p = self.step(p, sem)
+        except Halt:
+            return
+
+    def raise_error(self, p, code):
+        """A runtime error at pointer p. Returns the next pointer (handler outcome) or halts."""
+        self.err = (code, self.erl(p))
+        if self.run is not None:
+            self.run.state('err', code if isinstance(code, tuple) or code in ERRMSG else -1, self.R, self.on_error, self.in_handler,
+                           len(self.gosub) > 0, p[0], self.remaining() > 0)
+        if self.on_error and not self.in_handler:
+            self.resume_ptr = p
+            self.stale_resume = False
+            self.in_handler = True
+            return self.handler()
+        was_in_handler = self.in_handler
+        self.in_handler = False
+        if was_in_handler:
+            self.stale_resume = True
+            if self.run is not None:
+                self.run.probe('error-inside-handler')
+        self.report(code, self.erl(p))
+        raise Halt()
+
+    def report(self, code, line):
+        shown = code if isinstance(code, tuple) or code in ERRMSG else -1
+        if line == 65535:
+            self.ev.append(('derr', shown))
+        else:
+            self.ev.append(('stop', shown, line))
+
+    def handler(self):
+        """The fixed handler at H0 (see handler_lines)."""
+        code, erl = self.err
+        self.ev.append(('E', code, erl))
+        self.C += 1
+        self.I = 1
+        self.steps += 4
+        if self.C > self.cfg['lim']:
+            self.ev.append(('LOOP',))
+            self.do_end()
+            raise Halt()
+        if self.H == 1:
+            self.H = 0
+            return self.raise_error(('P', H0 + 20, 0), 77)
+        if self.H == 2:
+            self.H = 0
+            return self.raise_error(('P', H0 + 30, 0), 9)
+        rp = self.resume_ptr
+        if self.R in (1, 3):
+            self.leave_handler()
+            return rp
+        if self.R == 2:
+            # ON ERROR GOTO 0 inside the handler: the error is reported as if untrapped
+            self.on_error = False
+            self.math_trapped = False
+            self.in_handler = False
+            self.stale_resume = True
+            self.report(code, erl)
+            raise Halt()
+        if self.R >= 10 and self.R - 10 < len(self.cfg['landings']):
+            target = self.line_ptr(main_line(self.cfg['landings'][self.R - 10]))
+            if target is None:
+                raise Unspec()        # RESUME to a line that does not exist: left out
+            self.leave_handler()
+            return target
+        self.leave_handler()
+        return self.next_ptr(rp)
+
+    def leave_handler(self):
+        self.in_handler = False
+        self.resume_ptr = None
+        self.stale_resume = False
+        if self.run is not None:
+            self.run.probe('resumed')
+
+    def do_end(self):
+        self.in_handler = False
+        self.resume_ptr = None
+        self.stale_resume = False
+        self.open.clear()
+
+    def step(self, p, sem):
+        k = sem[0]
+        nxt = self.next_ptr(p)
+        if self.run is not None:
+            self.run.state('st', k, self.on_error, self.in_handler, len(self.gosub) > 0, p[0])
+        if k == 'mark':
+            self.ev.append(('M', sem[1]))
+        elif k == 'fin':
+            self.ev.append(('FIN',))
+        elif k == 'end':
+            self.do_end()
+            raise Halt()
+        elif k == 'err':
+            n = sem[1]
+            return self.raise_error(p, n if 1 <= n <= 255 else 5)
+        elif k == 'bad':
+            kind = sem[1]
+            if kind == 'div' and not self.math_trapped:
+                return nxt          # soft: message without line number, execution continues
+            return self.raise_error(p, BAD[kind][1])
+        elif k == 'seti':
+            self.I = sem[1]
+        elif k == 'fix':
+            if self.I > 10:
+                return self.raise_error(p, 9)
+        elif k == 'sel':
+            self.R = sem[1]
+        elif k == 'selh':
+            self.H = sem[1]
+        elif k == 'gosub':
+            target = self.line_ptr(sub_line(sem[1]))
+            if target is None:
+                return self.raise_error(p, 8)
+            self.gosub.append((nxt, self.direct_gen))
+            return target
+        elif k == 'ret':
+            if not self.gosub:
+                return self.raise_error(p, 3)
+            back, gen_ = self.gosub.pop()
+            if back is not None and back[0] == 'D' and gen_ != self.direct_gen:
+                raise Unspec()        # return into a direct line that has been replaced: left out
+            return back
+        elif k == 'onerr':
+            self.on_error = bool(sem[1])
+            self.math_trapped = bool(sem[1])
+            if not sem[1] and self.in_handler:
+                raise Unspec()
+        elif k == 'resume':
+            if self.in_handler or self.stale_resume:
+                raise Unspec()
+            if self.on_error:
+                # whether an armed trap catches error 20 is not specified: stop comparing here
+                raise Unspec()
+            return self.raise_error(p, 20)
+        elif k == 'open':
+            f, mode, num = sem[1], sem[2], sem[3]
+            name = f + '.DAT'
+            if num in self.open:
+                return self.raise_error(p, 55)
+            if mode == 'I' and not self.exists.get(name):
+                return self.raise_error(p, 53)
+            code = self.fault(f, 'open')
+            if code is not None:
+                return self.raise_error(p, code)
+            if mode == 'O':
+                self.content[name] = ''
+            elif mode == 'R' and not self.exists.get(name):
+                self.content[name] = ''
+            self.exists[name] = True
+            self.open[num] = (name, mode)
+            self.buf[num] = None
+        elif k == 'close':
+            self.open.pop(sem[1], None)
+            if self.fielded == sem[1]:
+                self.fielded = None
+        elif k == 'field':
+            if sem[1] not in self.open:
+                return self.raise_error(p, 52)
+            self.fielded = sem[1]
+        elif k == 'get':
+            num = sem[1]
+            if num not in self.open:
+                # Bad file number or Bad file mode: which of the two is not specified
+                return self.raise_error(p, (52, 54))
+            name = self.open[num][0]
+            code = self.fault(name[:-4], 'read')
+            if code is not None:
+                self.buf[num] = None
+                return self.raise_error(p, 57)
+            c = self.content.get(name)
+            self.buf[num] = c if c and len(c) == 8 else None
+        elif k == 'lset':
+            if self.fielded is not None and self.fielded in self.open:
+                self.buf[self.fielded] = REC_NEW
+        elif k == 'printg':
+            v = self.buf.get(self.fielded) if self.fielded is not None else None
+            self.ev.append(('G', v))
+        elif k == 'put':
+            num = sem[1]
+            if num not in self.open:
+                return self.raise_error(p, (52, 54))
+            name = self.open[num][0]
+            code = self.fault(name[:-4], 'write')
+            if code is not None:
+                self.content[name] = None
+                return self.raise_error(p, 57)
+            self.content[name] = self.buf.get(num)
+        elif k == 'kill':
+            name = sem[1] + '.DAT'
+            if not self.exists.get(name):
+                return self.raise_error(p, 53)
+            code = self.fault(sem[1], 'remove')
+            if code is not None:
+                return self.raise_error(p, code)
+            self.exists[name] = False
+        elif k == 'name':
+            old, new = sem[1] + '.DAT', sem[1] + '.NEW'
+            if not self.exists.get(old):
+                return self.raise_error(p, 53)
+            if self.exists.get(new):
+                return self.raise_error(p, 58)
+            code = self.fault(sem[1], 'rename')
+            if code is not None:
+                return self.raise_error(p, code)
+            self.exists[old] = False
+            self.exists[new] = True
+        elif k == 'files':
+            code = self.fault(sem[1], 'listdir')
+            if code is not None:
+                return self.raise_error(p, code)
+        elif k == 'mkdir':
+            code = self.fault(sem[1], 'mkdir')
+            if code is not None:
+                return self.raise_error(p, code)
+            if self.exists.get(sem[1]):
+                return self.raise_error(p, 75)
+            self.exists[sem[1]] = True
+        else:
+            raise ValueError(sem)
+        return nxt
+
+    math_trapped = False
+
+    # -- phases --------------------------------------------------------------
+
+    def run_program(self):
+        # RUN: clears variables, stacks and the trap, closes files
+        self.on_error = False
+        self.math_trapped = self.math_trapped   # the float handler's state is not reset by RUN (unobservable here: starts False)
+        self.in_handler = False
+        self.resume_ptr = None
+        self.gosub = []
+        self.I = self.R = self.H = self.C = 0
+        self.open.clear()
+        first = self.linenos[0]
+        self.run_from(('P', first, 0))
+
+    def run_direct(self, stmts):
+        self.direct = [sem for _, sem in expand(stmts)]
+        self.direct_gen += 1
+        self.run_from(('D', 0, 0))
+
+
+def site_files(ops):
+    """(file, kind) for every device statement in the ops (stable order)."""
+    seen = []
+
+    def walk(st):
+        if st[0] == 'dev':
+            if (st[2], st[1]) not in seen:
+                seen.append((st[2], st[1]))
+        elif st[0] == 'if':
+            walk(st[1])
+    for op in ops:
+        for st in op.get('stmts', []):
+            walk(st)
+    return seen
+
+
+# ---------------------------------------------------------------------------
+# generation
+
+def _gen_site(rng, cx):
+    """One fault site: a list of op-level statements (selector + failing statement)."""
+    r = rng.random()
+    pre = []
+    form = rng.random()
+    if form < 0.35:
+        sel = 0                      # RESUME NEXT (default branch)
+    elif form < 0.55:
+        sel = 1 if rng.random() < 0.7 else 3      # RESUME / RESUME 0
+    elif form < 0.62:
+        sel = 2                      # ON ERROR GOTO 0 in the handler
+    elif cx['landings']:
+        sel = 10 + rng.randrange(len(cx['landings']) + (1 if rng.random() < 0.1 else 0))
+    else:
+        sel = 0
+    pre.append(['sel', sel])
+    if rng.random() < 0.08:
+        pre.append(['selh', rng.choice([1, 2])])
+    if r < 0.22:
+        st = ['err', rng.choice(ERR_CODES)]
+    elif r < 0.40:
+        st = ['bad', rng.choice(sorted(BAD))]
+    elif r < 0.52:
+        pre.append(['seti', 11])
+        st = ['fix']
+    else:
+        cx['nfile'] += 1
+        kind = rng.choice(['openi', 'openi', 'openo', 'get', 'get', 'put', 'kill', 'name', 'files', 'mkdir'])
+        f = {'files': 'D', 'mkdir': 'X'}.get(kind, 'F') + '%02d' % cx['nfile']
+        st = ['dev', kind, f]
+        if cx['faulty'] and rng.random() < 0.8:
+            fk = {'openi': 'open', 'openo': 'open', 'get': rng.choice(['read', 'read', 'open']),
+                  'put': rng.choice(['write', 'write', 'open']), 'kill': 'remove', 'name': 'rename',
+                  'files': 'listdir', 'mkdir': 'mkdir'}[kind]
+            en = 'EIO' if fk in ('read', 'write') else rng.choice(sorted(ERRNO_CODE))
+            cx['faults'].append({'op': 'fault', 'file': f, 'kind': fk, 'errno': en, 'r': rng.choice([1, 1, 2, 3])})
+            if sel == 0 and rng.random() < 0.6:
+                pre[0] = ['sel', 1]     # retry loop around the transient fault
+    if st[0] in ('err', 'bad', 'fix') or (st[0] == 'dev' and st[1] in ('kill', 'name', 'files', 'mkdir')):
+        if rng.random() < 0.15:
+            st = ['if', st]
+    return pre, st
+
+
 def gen21(rng, tier):
-    raise NotImplementedError
+    thorough = tier != 'quick'
+    n_lines = rng.randint(3, 9 if not thorough else 24)
+    n_subs = rng.randint(0, 3)
+    ids = list(range(1, n_lines + 1))
+    landings = sorted(rng.sample(ids, min(len(ids), rng.randint(0, 3))))
+    faulty = rng.random() < 0.6
+    cfg = {'lim': rng.choice([3, 5, 8]), 'landings': landings, 'session': {}, 'world': {}, 'c21': True}
+    cx = {'landings': landings, 'faulty': faulty, 'faults': [], 'nfile': 0}
+    ops = []
+    marker = [0]
 
+    def mark():
+        marker[0] += 1
+        return ['m', marker[0]]
 
-def run21(case):
-    raise NotImplementedError
+    def body(n_sites, in_sub, sub_ids):
+        stmts = []
+        for _ in range(n_sites):
+            r = rng.random()
+            if r < 0.55:
+                pre, st = _gen_site(rng, cx)
+                if rng.random() < 0.5:
+                    stmts.append(mark())
+                stmts.extend(pre)
+                stmts.append(st)
+                stmts.append(mark())
+            elif r < 0.70 and sub_ids:
+                stmts.append(['gosub', rng.choice(sub_ids)])
+                stmts.append(mark())
+            elif r < 0.80:
+                stmts.append(['onerr', 1 if rng.random() < 0.75 else 0])
+            elif r < 0.82:
+                stmts.append(['resume', rng.choice(['', 'NEXT'] + landings[:1])])
+                stmts.append(mark())
+            elif r < 0.90:
+                stmts.append(['ret'])
+                stmts.append(mark())
+            else:
+                stmts.append(mark())
+        return stmts
+
+    armed_first = rng.random() < 0.8
+    sub_ids = list(range(1, n_subs + 1))
+    for k in ids:
+        st = body(rng.randint(1, 2), False, sub_ids)
+        if k == 1 and armed_first:
+            st = [['onerr', 1]] + st
+        ops.append({'op': 'line', 'id': k, 'stmts': st})
+    for k in sub_ids:
+        ops.append({'op': 'sub', 'id': k, 'stmts': body(rng.randint(1, 2), True, [j for j in sub_ids if j > k])})
+    if rng.random() < 0.15:
+        # RESUME outside a handler with no trap armed: the last thing the program does
+        ops[len(ids) - 1]['stmts'] += [['onerr', 0], ['resume', rng.choice(['', 'NEXT'] + landings[:1])], mark()]
+    for _ in range(rng.randint(0, 3)):
+        if rng.random() < 0.25:
+            ops.append({'op': 'direct', 'stmts': [['onerr', 0], mark(), ['resume', rng.choice(['', 'NEXT'])], mark()]})
+        else:
+            ops.append({'op': 'direct', 'stmts': body(1, False, sub_ids)})
+    if rng.random() < 0.3:
+        cx['nfile'] += 1
+        lo = {'op': 'load', 'file': 'P%02d' % cx['nfile']}
+        ops.append(lo)
+        if faulty and rng.random() < 0.8:
+            cx['faults'].append({'op': 'fault', 'file': lo['file'], 'kind': 'open',
+                                 'errno': rng.choice(sorted(ERRNO_CODE)), 'r': rng.choice([1, 2])})
+    ops = cx['faults'] + ops
+    return {'machine': NAME, 'prop': 'C21', 'cfg': cfg, 'ops': ops}
 
 
 def simplify21(cfg, ops):
-    return iter(())
+    if cfg['landings']:
+        yield dict(cfg, landings=cfg['landings'][:-1]), ops
+    for i, op in enumerate(ops):
+        if op['op'] == 'fault' and op['r'] > 1:
+            yield cfg, ops[:i] + [dict(op, r=op['r'] - 1)] + ops[i + 1:]
+        if op['op'] == 'fault' and op['errno'] != 'EIO':
+            yield cfg, ops[:i] + [dict(op, errno='EIO')] + ops[i + 1:]
+        st = op.get('stmts')
+        if st and len(st) > 1:
+            for j in range(len(st)):
+                yield cfg, ops[:i] + [dict(op, stmts=st[:j] + st[j + 1:])] + ops[i + 1:]
+        if st:
+            for j, x in enumerate(st):
+                if x[0] == 'if':
+                    yield cfg, ops[:i] + [dict(op, stmts=st[:j] + [x[1]] + st[j + 1:])] + ops[i + 1:]
+
+
+# ---------------------------------------------------------------------------
+# run + judge
+
+def run21(case):
+    cfg = case['cfg']
+    ops = case['ops']
+
+    def body(run):
+        w = run.w
+        scratch = run.make_scratch()
+        root = os.path.join(scratch, 'c')
+        os.makedirs(root)
+        fs = simfs.SimFS(w, [scratch])
+        lines, _ = program21(cfg, ops)
+        # host files the sites work on
+        for f, kind in site_files(ops):
+            if kind in ('openi', 'get', 'put', 'kill', 'name'):
+                with simfs.real_open(os.path.join(root, f + '.DAT'), 'wb') as fh:
+                    fh.write(REC_OLD.encode('latin-1'))
+            elif kind == 'files':
+                os.makedirs(os.path.join(root, f))
+                with simfs.real_open(os.path.join(root, f, 'A.TXT'), 'wb') as fh:
+                    fh.write(b'x')
+        loads = [op for op in ops if op['op'] == 'load']
+        for op in loads:
+            with simfs.real_open(os.path.join(root, op['file'] + '.BAS'), 'wb') as fh:
+                fh.write(b'10 PRINT "#L|%s|"\r\n\x1a' % op['file'].encode('latin-1'))
+        sink = ByteSink()
+        model = Model21(cfg, ops, run)
+        with w:
+            d = Driver(w, devices={'C:': root}, current_device='C:', output_streams=sink, **cfg.get('session', {}))
+            for n, text in lines:
+                r = d.exec(b(text))
+                if r.errs:
+                    raise K.HarnessError('program line rejected: %r -> %r' % (text, r))
+            # arm the fault plan: the first r host calls of that kind on that file fail
+            for op in ops:
+                if op['op'] == 'fault':
+                    sub = op['file'] + ('.' if op['kind'] in ('open', 'read', 'write', 'remove', 'rename') else '')
+                    fs.arm(op['kind'], nth=1, err=getattr(_errno, op['errno']), path_sub=sub, repeat=op['r'])
+            script = [{'t': 'line', 'text': u'RUN'}]
+            model.run_program_safe()
+            typed = 1
+            for op in ops:
+                if op['op'] == 'direct':
+                    ex = expand(op['stmts'])
+                    if ex:
+                        script.append({'t': 'line', 'text': u':'.join(t for t, _ in ex)})
+                        model.run_direct_safe(op['stmts'])
+                        typed += 1
+            for op in loads[:1]:
+                fl = model.faults.get((op['file'], 'open'))
+                n_fail = fl[0] if fl else 0
+                for _ in range(n_fail):
+                    script.append({'t': 'line', 'text': u'LOAD "%s"' % op['file']})
+                    model.emit(('derr', fl[1] if fl[1] in ERRMSG else -1))
+                    fl[0] -= 1
+                script.append({'t': 'line', 'text': u'LOAD "%s"' % op['file']})
+                script.append({'t': 'line', 'text': u'RUN'})
+                model.emit(('L', op['file']))
+                typed += n_fail + 2
+                run.probe('load-probe')
+            p0 = w.poll_no
+            t = interact(d, script, poll_cap=120000, stall_polls=6000)
+            polls = w.poll_no - p0
+            run.res['stats']['stalled'] += t.stalled
+            d.close()
+        judge21(run, cfg, ops, model, sink.getvalue(), polls, typed, t.stalled, fs)
+    return execute(case, body)
+
+
+def _m21_emit(self, e):
+    if not self.unspec:
+        self.ev.append(e)
+
+
+def _m21_safe(fn):
+    def wrapped(self, *a):
+        if self.unspec:
+            return
+        try:
+            fn(self, *a)
+        except Unspec:
+            self.unspec = True
+            self.ev.append(('UNSPEC',))
+    return wrapped
+
+
+Model21.unspec = False
+Model21.emit = _m21_emit
+Model21.run_program_safe = _m21_safe(Model21.run_program)
+Model21.run_direct_safe = _m21_safe(Model21.run_direct)
+
+
+def _norm_trace(ev):
+    """Engine events in the model's vocabulary."""
+    out = []
+    for e in ev:
+        if e[0] == '#':
+            tag, f, complete = e[1], e[2], e[3]
+            try:
+                if tag == 'M' and complete:
+                    out.append(('M', int(f[0])))
+                elif tag == 'E' and complete:
+                    out.append(('E', int(f[0]), int(f[1])))
+                elif tag == 'G':
+                    out.append(('G', f[0] if complete and f else None))
+                elif tag == 'L' and complete:
+                    out.append(('L', f[0]))
+                elif tag in ('LOOP', 'FIN'):
+                    out.append((tag,))
+                else:
+                    out.append(('?', tag, tuple(f)))
+            except (ValueError, IndexError):
+                out.append(('?', tag, tuple(f)))
+        elif e[0] in ('stop', 'derr'):
+            out.append(e)
+        elif e[0] == 'break':
+            out.append(('break', e[1]))
+    return out
+
+
+def judge21(run, cfg, ops, model, out, polls, typed, stalled, fs):
+    got = _norm_trace(parse_trace(out))
+    exp = model.ev
+    listing = '\n'.join(t for _, t in program21(cfg, ops)[0])
+    directs = [':'.join(t for t, _ in expand(op['stmts'])) for op in ops if op['op'] == 'direct']
+    faults = [op for op in ops if op['op'] == 'fault']
+    n = 0
+    for i, e in enumerate(exp):
+        if e[0] == 'UNSPEC':
+            run.probe('unspecified-corner-reached')
+            return
+        if i >= len(got):
+            run.violate('C21', 'trace-short:expected-%s' % _evclass(e),
+                        'engine trace ends after %d events; model expects %r next\nmodel  %r\nengine %r\nprogram:\n%s\ndirect: %r\n'
+                        'faults: %r\n%s' % (i, e, exp, got, listing, directs, faults, _tail(out)))
+            return
+        g = got[i]
+        if e[0] == 'G' and g[0] == 'G' and (e[1] is None or e[1] == g[1]):
+            continue
+        if e[0] in ('E', 'stop', 'derr') and isinstance(e[1], tuple) and g[0] == e[0] and g[1] in e[1] and g[2:] == e[2:]:
+            continue
+        if e != g:
+            run.violate('C21', 'trace-mismatch:model-%s:engine-%s' % (_evclass(e), _evclass(g)),
+                        'event %d: model %r, engine %r\nmodel  %r\nengine %r\nprogram:\n%s\ndirect: %r\nfaults: %r\n%s' % (
+                            i, e, g, exp, got, listing, directs, faults, _tail(out)))
+            return
+        n += 1
+    if len(got) > len(exp):
+        run.violate('C21', 'trace-long:extra-%s' % _evclass(got[len(exp)]),
+                    'engine produced %r after the model finished\nmodel  %r\nengine %r\nprogram:\n%s\ndirect: %r\nfaults: %r' % (
+                        got[len(exp)], exp, got, listing, directs, faults))
+        return
+    # bounded liveness: once the faults stop the program finishes within the predicted number of
+    # statements (one poll per statement boundary; generous constant for the typed lines)
+    bound = 6 * model.steps + 120 * typed + 400
+    if polls > bound or stalled:
+        run.violate('C21', 'liveness:polls-exceed-model-bound',
+                    'engine used %d polls (stalled %d), model executed %d statements (bound %d)\nprogram:\n%s' % (
+                        polls, stalled, model.steps, bound, listing))
+    if fs.plan and not model.unspec:
+        left = [(f['kind'], f['path_sub'], f['repeat']) for f in fs.plan]
+        exp_left = sorted((k[1], k[0], v[0]) for k, v in model.faults.items() if v[0] > 0)
+        if len(left) != len(exp_left):
+            run.violate('C21', 'fault-plan-accounting',
+                        'faults still armed in the simulator %r, in the model %r\nprogram:\n%s' % (left, exp_left, listing))
+
+
+def _evclass(e):
+    if e[0] in ('stop', 'derr'):
+        return '%s%s' % (e[0], e[1] if not isinstance(e[1], tuple) else '/'.join(map(str, e[1])))
+    if e[0] == 'E':
+        return 'E%s@%s' % (e[1] if not isinstance(e[1], tuple) else '/'.join(map(str, e[1])), 'direct' if e[2] == 65535 else ('handler' if e[2] >= H0 else ('sub' if e[2] >= SUB0 else 'main')))
+    return str(e[0])
